@@ -22,8 +22,8 @@ impl Property for C05 {
     const ISOLATE: bool = false;
     fn plan(tier: Tier) -> Plan {
         match tier {
-            Tier::Quick => Plan { shards: 16, cases_per_shard: 6000, max_shrink_iters: 600 },
-            Tier::Thorough => Plan { shards: 16, cases_per_shard: 150000, max_shrink_iters: 1500 },
+            Tier::Quick => Plan { shards: 16, cases_per_shard: 4000, max_shrink_iters: 600 },
+            Tier::Thorough => Plan { shards: 16, cases_per_shard: 100000, max_shrink_iters: 1500 },
         }
     }
     fn strategy(tier: Tier) -> BoxedStrategy<Case> {
